@@ -11,6 +11,7 @@ const (
 	OK        = 0
 	EPERM     = 1
 	ENOENT    = 2
+	ENXIO     = 6
 	EBADF     = 9
 	EACCES    = 13
 	EBUSY     = 16
@@ -927,14 +928,14 @@ func (f *FS) Read(h *Handle, n int) ([]byte, int) {
 		return nil, ErrClosed
 	}
 	nd := f.Nodes[h.Ino]
-	if nd.Kind == KDir {
-		return nil, EISDIR
+	if n == 0 {
+		return nil, OK
 	}
 	if !h.Read {
 		return nil, EBADF
 	}
-	if n == 0 {
-		return nil, OK
+	if nd.Kind == KDir {
+		return nil, EISDIR
 	}
 	if h.Off >= int64(len(nd.Data)) {
 		return nil, EOF
@@ -1048,12 +1049,21 @@ func (f *FS) Seek(h *Handle, off int64, whence int) (int64, int) {
 		base = h.Off
 	case 2:
 		base = int64(len(nd.Data))
+	case 3, 4: // SEEK_DATA, SEEK_HOLE (tmpfs: a small file is one data extent)
+		if off < 0 || off >= int64(len(nd.Data)) {
+			return 0, ENXIO
+		}
+		if whence == 4 {
+			off = int64(len(nd.Data))
+		}
+		h.Off = off
+		return off, OK
 	default:
 		return 0, EINVAL
 	}
 	n := base + off
-	if off > 0 && n < base { // overflow
-		return 0, EOVERFLOW
+	if off > 0 && n < base { // overflow wraps to a negative position: EINVAL
+		return 0, EINVAL
 	}
 	if n < 0 {
 		return 0, EINVAL
